@@ -2,7 +2,7 @@
 from pyvc.contract import (contract, cl, GhostFun, Macro, Lemma, NdArray, ListOf, IntT, RealT, BoolT, TupleOf, FnT, OptT)
 from pyvc.heap import ObjT, UnitT
 from .types import StrT, SegT
-from .speclib import VIEW_MACROS
+from .speclib import VIEW_MACROS, PSUM_LEMMAS
 
 F = "pygamma_agreement/continuum.py::"
 CONT = lambda: ObjT("Continuum")        # noqa: E731
@@ -121,3 +121,149 @@ contract(F + "Continuum.avg_num_annotations_per_annotator", params={"self": CONT
          macros=VIEW_MACROS,
          raises={"ZeroDivisionError": {"iff": "Nkeys(self) == 0"}},
          ensures=[cl("result == NumUnits(self) / Nkeys(self)", name="mean")], serves={"C13", "C01", "C02", "C03", "C05"})
+
+# =========================================================================================================
+# Continuum.get_best_alignment / get_best_soft_alignment        (C01, C02, C03-D4, C08, C11, C14)
+#
+# ghost outputs:  CD, CA = the candidate disorders / tuples returned by valid_alignments;  AM = build_A(CA, sizes);
+#                 XV = the 0/1 solution vector the MIP solver returned (trusted solver model, DESIGN.md 1.8)
+#   feasible(y)  <=>  y is 0/1 and every unit row r satisfies dot(AM[r], y, K) == 1   (soft: >= 1)
+# Both solver exits (CBC; GLPK after ImportError / SolverError) are separate paths through the same postconditions: C08.
+# =========================================================================================================
+from .dissimilarity import DISSIM      # noqa: E402
+from .alignment import ALIGN, UAT, SlotT   # noqa: E402
+from pyvc.contract import global_ghost   # noqa: E402
+
+global_ghost("lasthit", "AReal AReal Int -> Int",
+             ["forall([(c, AReal), (y, AReal)], lasthit(c, y, 0) == 0 - 1)",
+              "forall([(c, AReal), (y, AReal), k], implies(k >= 0, lasthit(c, y, k + 1) == "
+              "ite(c[k] == 1 and y[k] == 1, k, lasthit(c, y, k))), pat=[lasthit(c, y, k + 1)])"])
+
+DOT_LEMMAS = [
+    Lemma("dot_nonneg", "dot(c, y, k) >= 0", binders=[("c", "AReal"), ("y", "AReal"), ("k", "Int")],
+          hyps=["0 <= k", "forall(i, 0, k, (c[i] == 0 or c[i] == 1) and (y[i] == 0 or y[i] == 1))"], method=("induction", "k", "0"),
+          pats=["dot(c, y, k)"]),
+    Lemma("dot_hit", "dot(c, y, k) >= 1", binders=[("c", "AReal"), ("y", "AReal"), ("i0", "Int"), ("k", "Int")],
+          hyps=["0 <= i0", "i0 < k", "forall(i, 0, k, (c[i] == 0 or c[i] == 1) and (y[i] == 0 or y[i] == 1))",
+                "c[i0] == 1 and y[i0] == 1"], method=("induction", "k", "i0 + 1"), pats=[("dot(c, y, k)", "c[i0]", "y[i0]")]),
+    Lemma("dot_two_hits", "dot(c, y, k) >= 2",
+          binders=[("c", "AReal"), ("y", "AReal"), ("i0", "Int"), ("i1", "Int"), ("k", "Int")],
+          hyps=["0 <= i0", "i0 < i1", "i1 < k", "forall(i, 0, k, (c[i] == 0 or c[i] == 1) and (y[i] == 0 or y[i] == 1))",
+                "c[i0] == 1 and y[i0] == 1", "c[i1] == 1 and y[i1] == 1"], method=("induction", "k", "i1 + 1"),
+          pats=[("dot(c, y, k)", "c[i0]", "y[i0]", "c[i1]", "y[i1]")]),
+    Lemma("dot_some_hit", "0 <= lasthit(c, y, k) and lasthit(c, y, k) < k and c[lasthit(c, y, k)] == 1 and y[lasthit(c, y, k)] == 1",
+          binders=[("c", "AReal"), ("y", "AReal"), ("k", "Int")],
+          hyps=["0 <= k", "forall(i, 0, k, (c[i] == 0 or c[i] == 1) and (y[i] == 0 or y[i] == 1))", "dot(c, y, k) >= 1"],
+          method=("induction", "k", "0"), pats=["lasthit(c, y, k)"]),
+]
+
+
+def best_alignment_contract(name, soft):
+    rel = ">=" if soft else "=="
+    macros = VIEW_MACROS + [
+        Macro("nA", [], "Nkeys(self)"),
+        Macro("cntAt", ["a"], "Cnt(self)[Kseq(self)[a]]"),
+        Macro("unitAt", ["a", "j"], "Useq(self)[Kseq(self)[a]][j]"),
+        Macro("off", ["a"], "psum(lam(k, Cnt(self)[Kseq(self)[k]]), a)"),
+        Macro("feasible", ["y"], "forall(k, 0, KK, y[k] == 0 or y[k] == 1) and "
+                                  f"forall(r, 0, NumUnits(self), dot(AM[r], y, KK) {rel} 1)"),
+        Macro("L", [], "result.unitary_alignments"),
+        Macro("slot", ["t", "a"], "result.unitary_alignments[t]._n_tuple[a][1]"),
+        Macro("xbar", [], "toreal(NumUnits(self)) / Nkeys(self)"),
+        Macro("hitk", ["a", "j"], "lasthit(A[psum(sizes, a) + j], XV, KK)"),
+        # decoding of candidate tuple `row` into the slots of unitary alignment `ua`
+        Macro("decoded", ["ua", "row", "upto"],
+              "forall(a, 0, upto, ua[a][0] == Kseq(self)[a] and "
+              "implies(row[a] < cntAt(a), not isnone(ua[a][1]) and some(ua[a][1]) == unitAt(a, row[a]) and "
+              "                           Us(self)[Kseq(self)[a]][unitAt(a, row[a])]) and "
+              "implies(row[a] >= cntAt(a), isnone(ua[a][1])))"),
+    ]
+    ensures = [
+        cl("fresh_obj(result) and not isnone(result.continuum) and same_obj(some(result.continuum), self)", name="attached"),
+        cl("forall(t, 0, len(L()), len(L()[t]._n_tuple) == nA() and forall(a, 0, nA(), L()[t]._n_tuple[a][0] == Kseq(self)[a] and "
+           "(isnone(slot(t, a)) or Us(self)[Kseq(self)[a]][some(slot(t, a))])))", "C01 C11 C10", name="P1-well-formed-own-units"),
+        cl("forall(t, 0, len(L()), exists(a, 0, nA(), not isnone(slot(t, a))))", "C01 C11", name="P2-some-real-unit"),
+        cl("forall(a, 0, nA(), forall(j, 0, cntAt(a), exists(t, 0, len(L()), not isnone(slot(t, a)) and "
+           "some(slot(t, a)) == unitAt(a, j))))", "C01 C11 C08 C10", name="P3-every-unit-at-least-once"),
+    ]
+    if not soft:
+        ensures.append(cl("forall(t1, 0, len(L()), forall(t2, t1 + 1, len(L()), forall(a, 0, nA(), isnone(slot(t1, a)) or "
+                          "isnone(slot(t2, a)) or some(slot(t1, a)) != some(slot(t2, a)))))", "C01 C08 C10",
+                          name="P3-every-unit-at-most-once"))
+    ensures += [
+        cl("not isnone(result._disorder) and some(result._disorder) * xbar() == "
+           "rpsum(lam(t, some(result.unitary_alignments[t]._disorder)), len(L()))", "C02 C03 C11", name="disorder-is-sum-over-xbar"),
+        cl("len(L()) == NSEL and forall(t, 0, NSEL, 0 <= SEL[t] and SEL[t] < KK and XV[SEL[t]] == 1 and "
+           "some(L()[t]._disorder) == CD[SEL[t]])", "C02 C03 C11", name="chosen-are-the-support"),
+        cl("forall(k, 0, KK, implies(XV[k] == 1, exists(t, 0, NSEL, SEL[t] == k)))", "C02 C11", name="support-is-chosen"),
+        cl("feasible(XV)", "C02 C08 C11", name="solution-feasible"),
+        cl("forall([(y, AReal)], implies(feasible(y), dot(CD, XV, KK) <= dot(CD, y, KK)))", "C02 C08 C11", name="optimal"),
+    ]
+    ret = "return SoftAlignment(..." if soft else "return Alignment(..."
+    once_hints = [] if soft else [
+        ("before", ret, "model_inv wfmap(self)"),
+        ("before", ret, "assert forall(t1, 0, NSEL, forall(t2, t1 + 1, NSEL, forall(a, 0, nA(), "
+                        "implies(chosen_alignments[t1][a] < cntAt(a) and chosen_alignments[t1][a] == chosen_alignments[t2][a], "
+                        "SEL[t1] < SEL[t2] and XV[SEL[t1]] == 1 and XV[SEL[t2]] == 1 and "
+                        "A[psum(sizes, a) + chosen_alignments[t1][a]][SEL[t1]] == 1 and "
+                        "A[psum(sizes, a) + chosen_alignments[t1][a]][SEL[t2]] == 1 and "
+                        "dot(A[psum(sizes, a) + chosen_alignments[t1][a]], XV, KK) == 1))))"),
+        ("before", ret, "assert forall(t1, 0, NSEL, forall(t2, t1 + 1, NSEL, forall(a, 0, nA(), "
+                        "implies(chosen_alignments[t1][a] < cntAt(a), chosen_alignments[t1][a] != chosen_alignments[t2][a]))))"),
+    ]
+    return contract(F + f"Continuum.{name}",
+                    params={"self": CONT(), "dissimilarity": DISSIM()},
+                    returns=ALIGN("SoftAlignment" if soft else "Alignment"),
+                    modifies=[], macros=macros, lemmas=DOT_LEMMAS + PSUM_LEMMAS,
+                    locals={"set_unitary_alignements": UAT(), "u_align_tuple": SlotT()},
+                    ghost_vars={"CD": ("AReal", None), "CA": ("A2Int", None), "AM": ("A2Real", None), "XV": ("AReal", None),
+                                "KK": ("Int", None), "SEL": ("AInt", None), "NSEL": ("Int", None)},
+                    requires=["RI(self)", "dissimilarity.delta_empty >= 0", "forall(a, 0, nA(), cntAt(a) <= 32766)"],
+                    raises={"AssertionError": {}, "SolverError": {}},
+                    calls={"build_A": "pygamma_agreement/numba_utils.py::build_A"},
+                    ensures=ensures,
+                    hooks=[("after", "disorders, possible_unitary_alignments = ...", "CD = raw(disorders)"),
+                           ("after", "disorders, possible_unitary_alignments = ...", "CA = raw(possible_unitary_alignments)"),
+                           ("after", "n = len(disorders)", "KK = n"),
+                           ("after", "A = build_A(possible_unitary_alignments, sizes)", "AM = raw(A)"),
+                           ("after", "A = build_A(possible_unitary_alignments, sizes)",
+                            "assert psum(sizes, nA()) == NumUnits(self) and forall(a, 0, nA() + 1, psum(sizes, a) == off(a))"),
+                           ("after", "chosen_alignments_ids, = ...", "XV = raw(x.value)"),
+                           ("after", "chosen_alignments_ids, = ...", "SEL = raw(chosen_alignments_ids)"),
+                           ("after", "chosen_alignments_ids, = ...", "NSEL = len(chosen_alignments_ids)"),
+                           # exactly-one reasoning (lemmas dot_*): the candidate holding unit (a, j) in the solution
+                           ("before", ret, "assert forall(k, 0, KK, XV[k] == 0 or XV[k] == 1)"),
+                           ("before", ret, "assert forall(a, 0, nA(), forall(j, 0, cntAt(a), 0 <= psum(sizes, a) + j and "
+                                           "psum(sizes, a) + j < shape(A)[0] and forall(k, 0, KK, A[psum(sizes, a) + j][k] == "
+                                           "(1 if possible_unitary_alignments[k][a] == j else 0))))"),
+                           ("before", ret, "assert forall(a, 0, nA(), forall(j, 0, cntAt(a), "
+                                           f"dot(A[psum(sizes, a) + j], XV, KK) {rel} 1))"),
+                           ("before", ret, "assert forall(a, 0, nA(), forall(j, 0, cntAt(a), 0 <= hitk(a, j) and hitk(a, j) < KK and "
+                                           "XV[hitk(a, j)] == 1 and possible_unitary_alignments[hitk(a, j)][a] == j))"),
+                           ("before", ret, "assert forall(a, 0, nA(), forall(j, 0, cntAt(a), "
+                                           "0 <= where_pos()[hitk(a, j)] and where_pos()[hitk(a, j)] < NSEL and "
+                                           "chosen_alignments[where_pos()[hitk(a, j)]][a] == j))"),
+                           ("before", ret, "assert forall(a, 0, nA(), forall(j, 0, cntAt(a), "
+                                           "not isnone(set_unitary_alignements[where_pos()[hitk(a, j)]]._n_tuple[a][1]) and "
+                                           "some(set_unitary_alignements[where_pos()[hitk(a, j)]]._n_tuple[a][1]) == unitAt(a, j)))"),
+                           ("before", ret, "assert forall(t, 0, NSEL, exists(a, 0, nA(), chosen_alignments[t][a] < cntAt(a)))"),
+                           ("before", ret, "assert forall(k, 0, KK, implies(XV[k] == 1, 0 <= where_pos()[k] and "
+                                           "where_pos()[k] < NSEL and SEL[where_pos()[k]] == k))"),
+                           ] + once_hints,
+                    loops={
+                        "L0": dict(match="for i, units in enumerate(self._annotations.values())",
+                                   inv=["forall(k, 0, i, sizes[k] == cntAt(k) and sizes[k] >= 0)"]),
+                        "L1": dict(match="for alignment_id, alignment in enumerate(chosen_alignments)",
+                                   inv=["len(set_unitary_alignements) == alignment_id",
+                                        "forall(t, 0, alignment_id, len(set_unitary_alignements[t]._n_tuple) == nA() and "
+                                        "decoded(set_unitary_alignements[t]._n_tuple, chosen_alignments[t], nA()) and "
+                                        "not isnone(set_unitary_alignements[t]._disorder) and "
+                                        "some(set_unitary_alignements[t]._disorder) == alignments_disorders[t])"]),
+                        "L1.0": dict(match="for annotator_id, unit_id in enumerate(alignment)",
+                                     inv=["len(u_align_tuple) == annotator_id",
+                                          "decoded(u_align_tuple, alignment, annotator_id)"]),
+                    },
+                    serves={"C01", "C02", "C03", "C08", "C10", "C11", "C14"})
+
+
+best_alignment_contract("get_best_alignment", soft=False)
